@@ -304,13 +304,56 @@ func (c *Ctx) assumeInvariants(fr *Frame, li *loopInfo, st *State, reach string)
 	}
 }
 
+// rangeOfLoop: the map range whose Next sits in loop number ord of the frame's function.
+func (c *Ctx) rangeOfLoop(fr *Frame, ord string) *ssa.Range {
+	if fr == nil {
+		fr = c.topFrame
+	}
+	if fr == nil {
+		return nil
+	}
+	ci := c.mods.cfgOf(fr.fn)
+	for _, li := range ci.loops {
+		if fmt.Sprint(li.ordinal) != ord {
+			continue
+		}
+		for _, r := range rangesIn(fr.fn, li) {
+			return r
+		}
+	}
+	return nil
+}
+
+func rangesIn(fn *ssa.Function, li *loopInfo) []*ssa.Range {
+	var out []*ssa.Range
+	for _, b := range fn.Blocks {
+		if !li.blocks[b] {
+			continue
+		}
+		for _, ins := range b.Instrs {
+			if nx, ok := ins.(*ssa.Next); ok && !nx.IsString {
+				if r, ok := nx.Iter.(*ssa.Range); ok {
+					out = append(out, r)
+				}
+			}
+		}
+	}
+	return out
+}
+
 func (c *Ctx) havocLoop(fr *Frame, li *loopInfo, entry *State, reach string) *State {
 	st := entry.clone()
+	for _, r := range rangesIn(fr.fn, li) {
+		if vi, ok := st.vis[r]; ok {
+			vi.set = c.havoc("vis", vi.sort)
+			st.vis[r] = vi
+		}
+	}
 	if c.loopHasTracedCalls(fr, li) {
 		old := st.trN
 		st.trN = c.havoc("trn", "Int")
 		c.assume(reach, fmt.Sprintf("(>= %s %s)", st.trN, old))
-		for _, a := range []string{"TR_fn", "TR_a1", "TR_a2", "TR_a3", "TR_a4", "TR_a5", "TR_a6", "TR_res", "TR_res2", "TR_len", "TR_sa_arr", "TR_sa_off", "TR_sa_len", "TR_sa_cap", "TR_sr_arr", "TR_sr_off", "TR_sr_len", "TR_sr_cap"} {
+		for _, a := range []string{"TR_fn", "TR_a1", "TR_a2", "TR_a3", "TR_a4", "TR_a5", "TR_a6", "TR_res", "TR_res2", "TR_len", "TR_sa_arr", "TR_sa_off", "TR_sa_len", "TR_sa_cap", "TR_sb_arr", "TR_sb_off", "TR_sb_len", "TR_sb_cap", "TR_sr_arr", "TR_sr_off", "TR_sr_len", "TR_sr_cap"} {
 			before := c.arr(st, a, "Int")
 			st.heap[a] = c.havoc(a, "(Array Int Int)")
 			k := c.fresh("k")
